@@ -99,11 +99,41 @@ func c10Scenarios(tier string) []e1lib.Scenario {
 			}
 		}
 	}
+	// many workers: far more workers than elements, and more than any plausible fixed buffer (8, 16, 32, 64)
+	db := 2
+	if tier == "thorough" {
+		db = 3
+	}
+	for _, par := range []int{5, 9, 17, 33, 65} {
+		for _, in := range [][]int{{}, {2, 3}, {1, 2, 3, 1, 2, 3, 1}} {
+			for _, mo := range []string{"sum", "product"} {
+				for _, ic := range []int{0, len(in)} {
+					if ic == 0 && len(in) == 0 {
+						continue
+					}
+					input := in
+					if mo == "sum" {
+						input = make([]int, len(in))
+						for i, x := range in {
+							input[i] = 1 << (3 * x)
+						}
+					}
+					b := db
+					if par > 9 {
+						b--
+					}
+					c := forkh.Cfg{Stage: "fold", Par: par, Input: input, InCap: ic, Monoid: mo, Stop: -1}
+					out = append(out, e1lib.Scenario{Name: forkName(c) + fmt.Sprintf(" deviations<=%d", b), Root: func() { forkh.Scenario(c) }, Check: c10Check(c), Bound: b, Deviations: true, Sample: c, Sym: true, RealDone: []string{"got-eof"},
+						Nontrivial: func(outcomes, execs, states int) bool { return len(c.Input) >= 2 && execs > 1 }})
+				}
+			}
+		}
+	}
 	return out
 }
 
 func propC10() drv.Property {
 	return table("C10",
-		"one case = fork.Fold x worker count 1..3 (4 in thorough, inputs up to length 3) x every input sequence over a 3-letter alphabet of length <= 3 (4 in thorough), including empty and shorter than the worker count x monoid {sum with injective weights (the sum is the bag of elements, so exactly-once is visible), product, max, min, bitwise and, bitwise or} x input capacity {0, len}; every interleaving = every distribution of elements over workers and every arrival order of partial results at the collector; the result is deterministic by design, non-trivial = at least two elements, two workers and more than one schedule",
+		"one case = fork.Fold x worker count 1..3 (4 in thorough, inputs up to length 3) x every input sequence over a 3-letter alphabet of length <= 3 (4 in thorough), including empty and shorter than the worker count x monoid {sum with injective weights (the sum is the bag of elements, so exactly-once is visible), product, max, min, bitwise and, bitwise or} x input capacity {0, len}; 5, 9, 17, 33 and 65 workers over 0, 2 and 7 elements explored up to 2 (thorough 3) deviations from the default schedule (one less above 9 workers); every interleaving = every distribution of elements over workers and every arrival order of partial results at the collector; the result is deterministic by design, non-trivial = at least two elements, two workers and more than one schedule",
 		commonAssumptions, c10Scenarios)
 }
